@@ -54,13 +54,15 @@ def drive_and_judge(ctx, scs, sweep=0, variants="rotate"):
 
 def run(ctx):
     quick = ctx.quick
-    cfgs = ["MCPkgManager_quick.cfg"] if quick else ["MCPkgManager_thorough.cfg", "MCPkgManager_mid.cfg"]
+    # (foreignact: a revision labelled for the package, Active, controlled by another owner - e.g. left behind by an
+    # earlier incarnation of the package: nothing may be activated next to it)
+    cfgs = [("MCPkgManager_quick.cfg", 2600), ("MCPkgManager_foreignact.cfg", 400)] if quick else \
+           [("MCPkgManager_thorough.cfg", 30000), ("MCPkgManager_mid.cfg", 26000), ("MCPkgManager_foreignact.cfg", 4000)]
     scs, states, trans, emitted = [], 0, 0, 0
     consts = {}
-    budget = 3000 if quick else 60000
-    for i, cfg in enumerate(cfgs):
-        mc = ctx.model_check("MCPkgManager", cfg, workers=8 if quick else 16, timeout=300 if quick else 3000)
-        scs += scenarios_from(ctx, mc, "m%d" % i, budget // len(cfgs))
+    for i, (cfg, n) in enumerate(cfgs):
+        mc = ctx.model_check("MCPkgManager", cfg, sub="mc%d" % i, workers=8 if quick else 16, timeout=300 if quick else 3000)
+        scs += scenarios_from(ctx, mc, "m%d" % i, n)
         states += mc["states"]
         trans += mc["transitions"]
         emitted += mc["emitted"]
